@@ -214,10 +214,11 @@ structure Cfg where
   templates : Bool
 deriving Repr, DecidableEq
 
-/-- request: has a template/gzip extension (.html), offers gzip -/
+/-- request: has a template/gzip extension (.html), offers gzip, is a HEAD request -/
 structure Req where
   html : Bool
   ae   : Bool
+  head : Bool := false
 deriving Repr, DecidableEq
 
 /-- httpContext.InspectServerBlocks: a site with `gzip` but without `errors` gets a plain
@@ -238,6 +239,23 @@ def chain (c : Cfg) (r : Req) (i : Inner) : Beh :=
   if c.log then logW b4 else b4
 
 def serve (c : Cfg) (r : Req) (i : Inner) : Resp := runOps (serverW (chain c r i))
+
+/-! ### what net/http puts on the wire (trusted, as documented)
+
+No body for a HEAD request and for the statuses 204 and 304 — whatever the handlers wrote is
+dropped —; Content-Length is not sent with 204 and 304, it is kept for HEAD (it describes the body
+a GET would get).  Informational 1xx headers precede the response header and are not part of it;
+the model does not have them: the stream sends a 103 before some written responses and expects
+the response to be the one without it. -/
+
+def bodiless (head : Bool) (status : Nat) : Bool := head || status = 204 || status = 304
+
+def wire (head : Bool) (r : Resp) : Resp :=
+  if bodiless head r.status then
+    { r with body := [], cl := if r.status = 204 || r.status = 304 then none else r.cl }
+  else r
+
+def serveWire (c : Cfg) (r : Req) (i : Inner) : Resp := wire r.head (serve c r i)
 
 /-! ### what outlives a request
 
